@@ -184,7 +184,7 @@ def oracle(c):
         for i in range(nsteps):
             K, G_ = KG(avg[i])
             if abs(K - Kx) > tol * sc or abs(G_ - Gx) > tol * sc:
-                f.append(f"bulk/shear moduli of the average ({K:.6f}, {G_:.6f}) differ from the phase-weighted single-crystal Voigt moduli ({Kx:.6f}, {Gx:.6f})")
+                f.append(f"bulk/shear moduli of the average ({K:.9g}, {G_:.9g}) differ from the phase-weighted single-crystal Voigt moduli ({Kx:.9g}, {Gx:.9g})")
                 break
     # co-rotation with the reference frame: A -> A.Q^T
     Q = G.haar(np.random.default_rng(7))
